@@ -173,13 +173,13 @@ Theorem C03_full_operator_set : forall (A : Type) (h : nat) (T : TEL.trace A) (v
   (forall p k, k <= h -> node_ok A h T v p k) -> forall p k, k <= h -> v p k = TEL.lsat A h T p k.
 Proof. exact full_ops_value. Qed.
 (* formulas are "shared between atoms" through the formula table of Theory and the per-step data, both keyed by the representation string (_rep) of a
-   formula.  With the representation of every class REGENERATED from its __init__ (Gen/FromReps.v; a literal piece of the format string, a number, a
-   name, an argument list are one token each), the representation is injective on the formulas of the model: two different formulas - weak / strong,
+   formula.  With the representation of every class REGENERATED from its __init__ (Gen/FromReps.v; a number, a name, an argument list are one token
+   each, the literal pieces of the format strings are taken character by character - RepsProofs.flat), the representation is injective on the formulas of the model: two different formulas - weak / strong,
    an atom and its classical complement, operands exchanged, another nesting - never share an entry; nor do two states of one formula *)
 Require RepsProofs.
-Theorem C03_formula_representation_is_injective : forall f g : RepsProofs.bf, RepsProofs.rep f = RepsProofs.rep g -> f = g.
+Theorem C03_formula_representation_is_injective : forall f g : RepsProofs.bf, RepsProofs.flat (RepsProofs.rep f) = RepsProofs.flat (RepsProofs.rep g) -> f = g.
 Proof. exact RepsProofs.rep_injective. Qed.
-Theorem C03_table_keys_are_injective : forall (k k' : nat) (f g : RepsProofs.bf), (k, RepsProofs.rep f) = (k', RepsProofs.rep g) -> k = k' /\ f = g.
+Theorem C03_table_keys_are_injective : forall (k k' : nat) (f g : RepsProofs.bf), (k, RepsProofs.flat (RepsProofs.rep f)) = (k', RepsProofs.flat (RepsProofs.rep g)) -> k = k' /\ f = g.
 Proof. exact RepsProofs.table_key_injective. Qed.
 Print Assumptions C03_formula_representation_is_injective.
 Print Assumptions C03_table_keys_are_injective.
